@@ -79,8 +79,6 @@ Theorem altered_rejected_partial c skip P j p st b hdr xes tr st' :
   h_prevalh (t_hdr p) = last_alh H (firstn j P) ->
   h_blroot (t_hdr p) = (if 0 <? h_bltxid (t_hdr p)
                         then root_at H (h_bltxid (t_hdr p)) (map t_alh (firstn j P)) else zeros32) ->
-  (* tx holder: repaired code, or a linked transaction, or a fresh holder *)
-  (c_stale c = false \/ 0 < h_bltxid (t_hdr p) \/ s_hold st = zeros32) ->
   (* b is ANY byte string that parses; the header fields no check covers are the primary's *)
   repl_parse b = Ok (hdr, xes, tr) ->
   h_ts hdr = h_ts (t_hdr p) -> h_version hdr = h_version (t_hdr p) ->
@@ -93,11 +91,11 @@ Theorem altered_rejected_partial c skip P j p st b hdr xes tr st' :
   replicate H c skip st b = Ok st' ->
   (exists r, chain st' = chain st ++ [r] /\ t_alh r = t_alh p) \/ Collision H.
 Proof.
-  intros PV En Hold Hprev Hbl Hst Epar Ets Ever Emd Eblt Eeh Edg Er.
+  intros PV En Hold Hprev Hbl Epar Ets Ever Emd Eblt Eeh Edg Er.
   pose proof (P_nth H P PV _ _ En) as V.
   destruct (valid_conj H _ _ V) as (V1 & V2 & V3 & V4 & V5 & V6 & V7).
   unfold replicate in Er. destruct (precheck H c skip st b) as [k| |] eqn:Ep; cbn [bind] in Er; try discriminate.
-  unfold perform in Er. destruct (c_maxActive c <=? lenN (live (s_tail st))); try discriminate.
+  unfold perform in Er. destruct (s_cap st <=? lenN (live (s_tail st))); try discriminate.
   inversion Er; subst st'; clear Er.
   destruct (precheck_inv H _ _ _ _ _ Ep) as (hdr0 & xes0 & tr0 & Epar0 & Kh & Ke & Keh & Ksk & Kid & Kbl1 & Kbl2 & Kpa).
   rewrite Epar in Epar0.
@@ -126,9 +124,7 @@ Proof.
       * rewrite V4. unfold lenN. f_equal.
         rewrite <- (digests_length _ _ _ Ed), <- (digests_length _ _ _ Edp). reflexivity.
       * congruence.
-      * rewrite Hbl. unfold hold_after. rewrite Kh, Kbl1, Eblt. unfold alhs. rewrite Ealhs.
-        destruct (N.ltb_spec 0 (h_bltxid (t_hdr p))) as [L|L]; auto.
-        destruct Hst as [Q|[Q|Q]]; [rewrite Q; reflexivity | lia | rewrite Q; destruct (c_stale c); reflexivity].
+      * rewrite Hbl, Kbl1, Eblt. unfold alhs. rewrite Ealhs. reflexivity.
 Qed.
 
 (* ---- ReplicateTx returns a header or an error: it never panics ---- *)
